@@ -14,6 +14,7 @@ def unit_map(rng):
     m = {}
     for u in framesmod.units(rng):
         m.setdefault(u['cls'], (u['unit'], []))[1].extend(u['frames'])
+        _MUST.update(u.get('must', ()))
     # each concrete handshake class is itself a framing unit (type + 24-bit length)
     for cls in corpus.concrete_parsables():
         if issubclass(cls, S.TlsHandshakeMessage) and not inspect.isabstract(cls):
@@ -22,6 +23,7 @@ def unit_map(rng):
 
 
 _UMAP = {}
+_MUST = set()
 _ALLSEEDS = []
 
 
@@ -34,7 +36,8 @@ def drive(arg):
     unit, frs = _UMAP.get(cls, ('', []))
     seeds = list(dict.fromkeys(list(lib.get(cls, [])) + list(frs)))
     if not thorough and len(seeds) > 12:
-        seeds = seeds[:6] + rng.sample(seeds[6:], 6)
+        musts = [x for x in seeds[6:] if x in _MUST][:6]
+        seeds = list(dict.fromkeys(seeds[:6] + musts + rng.sample(seeds[6:], 6)))
     events = []
     for seed_bytes in seeds:
         if len(seed_bytes) > 3000 and not thorough:
@@ -44,6 +47,7 @@ def drive(arg):
         inputs = [seed_bytes] + mutants(seed_bytes, rng, per_seed, others=[other])
         for data in inputs:
             ev, _ = api.observe(cls, data, unit=unit, positive=bool(unit), suffixes=suffixes)
+            ev['must'] = data is seed_bytes and data in _MUST
             ev['dg'] = digest([ev['cls'], data.hex()])
             ev['hex'] = data.hex() if len(data) <= 400 else data[:400].hex() + '...'
             events.append(ev)
